@@ -78,6 +78,7 @@ def feed (p : PState) (l : String) : PState :=
   | ["mode", m], .inRequest => { p with r := { p.r with mode := parseMode m } }
   | "obs" :: ns, .inRequest => { p with r := { p.r with obs := p.r.obs ++ ns.map String.toList } }
   | ["end"], .inRequest => { p with cur := { p.cur with reqs := p.cur.reqs ++ [p.r] }, ctx := .none }
+  | ["poke"], _ => p
   | ["endcase"], _ => { p with done := p.done ++ [p.cur], cur := {}, ctx := .none }
   | [], _ => p
   | _, _ => if (toks l).head? = some "#" then p else { p with errors := p.errors ++ [s!"bad line {l}"] }
